@@ -402,3 +402,13 @@ def json_T(e):
 
 
 RULES += [r9_unvisited_successors]
+
+
+def r10_backward_kill(ctx):
+    ctx.rule("C11.r10", "backward domain operations: the variable defined by the statement is overwritten or forgotten on every non-bottom "
+             "path (a constraint of the postcondition on x must not survive as a constraint on the OLD value of x)", floor=30)
+    from . import _domains as dm
+    dm.lhs_kill_rule(ctx, "C11.r10", backward=True)
+
+
+RULES += [r10_backward_kill]
